@@ -12,6 +12,7 @@
      ty 5  bstree.BsTree (comparator <)           C04_Model   Upsert k v | Get k | Delete k | Size
      ty 6  trie.Trie                              C09_Model   Put k v | Get k | Contains k | Size   (k indexes a key table)
      ty 7  cache.Cache (NoExpiration, no janitor) C08_Model   Set k v | Get k | Update k v | Delete k | Count
+                                                              | DeleteExpired | IsExpired k | Flush  (+ set-up: SetShort k v, Tick)
 
    An operation is a triple (code, a, b); a result is a triple (tag, x, y):
      (0,0,0) no result     (1,v,0) a value     (2,v,e) value and error kind (e = 0: nil)
@@ -168,19 +169,26 @@ Definition tr_step (t : tr_state) (o : opr) : tr_state * resr :=
 
 (* ---------------------------------------------------------------- cache *)
 
-Definition ca_state := C08_Model.cache Z.
-Definition ca_init : ca_state := C08_Model.new (-1) 0.        (* New(NoExpiration, 0) *)
+(* state: the cache and the clock reading every operation sees.  Entries are stored with
+   NoExpiration except by the set-up operation "SetShort" (duration 1 ns); the set-up
+   operation "Tick" lets (much more than) that nanosecond pass, so that afterwards such an
+   entry is expired for every operation and nothing else ever expires: the clock plays no
+   further role and is constant during the concurrent part. *)
+Definition ca_state := (C08_Model.cache Z * Z)%type.
+Definition ca_init : ca_state := (C08_Model.new (-1) 0, 1000).        (* New(NoExpiration, 0) *)
 Definition ca_err (e : option Z) : Z := match e with Some k => k | None => 0 end.
-Definition ca_step (c : ca_state) (o : opr) : ca_state * resr :=
+Definition ca_step (st : ca_state) (o : opr) : ca_state * resr :=
+  let '(c, now) := st in
   let '(code, k, v) := o in
   let go (p : C08_Model.op Z) :=
-    let '(c', r) := C08_Model.step Z (fun _ => false) c p 0 in
-    (c', match r with
+    let '(c', r) := C08_Model.step Z (fun _ => false) c p now in
+    ((c', now), match r with
          | C08_Model.RErr e => r_verr 0 (ca_err e)
          | C08_Model.RGet (Some it, e) => r_verr (C08_Model.object it) (ca_err e)
          | C08_Model.RGet (None, e) => r_verr 0 (ca_err e)
          | C08_Model.RCount n => r_val n
          | C08_Model.RBool b => r_bool b
+         | C08_Model.RUnit => r_unit
          | _ => r_badop
          end) in
   match code with
@@ -189,7 +197,12 @@ Definition ca_step (c : ca_state) (o : opr) : ca_state * resr :=
   | 2 => go (@C08_Model.OUpdate Z k v (-1))
   | 3 => go (@C08_Model.ODelete Z k)
   | 4 => go (@C08_Model.OCount Z)
-  | _ => (c, r_badop)
+  | 5 => go (@C08_Model.ODeleteExpired Z)
+  | 6 => go (@C08_Model.OIsExpired Z k)
+  | 7 => go (@C08_Model.OFlush Z)
+  | 8 => go (@C08_Model.OSet Z k v 1)                 (* set-up only: expires one nanosecond later *)
+  | 9 => ((c, now + 1000000), r_unit)                 (* set-up only: the harness sleeps 1 ms *)
+  | _ => (st, r_badop)
   end.
 
 (* ---------------------------------------------------------------- generic judges *)
